@@ -11,8 +11,8 @@ import DiffxVerif.Properties.C01Faithful
 `Properties/C01Run.lean` proves the round trip of every accepted program under `ProgramLaws`
 (pointwise laws about the environment: `TextLaws`, `MetaLaws`, `DiffLaws`, `NameOk`);
 `Properties/C01Faithful.lean` identifies the contents under `ProgramFaithfulFrom` and proves the
-codec laws for the six executable codecs of `Model/Codecs.lean` (ascii, latin-1, utf-8, utf-16,
-utf-16-le, utf-16-be).  This file discharges **every** one of those hypotheses from the single
+codec laws for the executable codecs of `Model/Codecs.lean` (ascii, latin-1, utf-8, utf-16,
+utf-16-le, utf-16-be, utf-32, utf-32-le, utf-32-be, utf-8-sig, cp1252).  This file discharges **every** one of those hypotheses from the single
 fact that the writer accepted the program, for the environment `Codecs.env dumps loadsText
 loadsBytes`, `Codecs.cfg` (the BOM table of the repository):
 
@@ -24,7 +24,8 @@ loadsBytes`, `Codecs.cfg` (the BOM table of the repository):
   section ids `SecId.main :: secIds 1 calls`: functions of the calls' arguments only (no law, no
   writer state, no environment; for a diff the newline bytes come from the codec);
 * `mockJsonLaws`, `C01_run_concrete_instance`: non-vacuity on an eleven-call program, checked by
-  evaluation as well.
+  evaluation as well; `C01_run_concrete_instance2`: the same shape of program under utf-32 (BOM),
+  utf-8-sig, windows-1252, utf-32-be.
 
 ## The two side hypotheses
 
@@ -99,7 +100,7 @@ theorem C01_faithful_any (hjson : JsonLaws dumps loadsText) (st : Writer.St) (ca
     ProgramFaithfulFrom (Codecs.env dumps loadsText loadsBytes) Codecs.cfg st calls Ls :=
   programFaithful_any dumps loadsText loadsBytes hjson calls st hwf Ls
 
-/-- **The whole-run round trip for the six codecs.**  For `Codecs.env dumps loadsText loadsBytes`
+/-- **The whole-run round trip for the concrete codecs.**  For `Codecs.env dumps loadsText loadsBytes`
 (JSON a parameter subject to `JsonLaws`, nothing assumed of `loadsBytes`) and the BOM table of
 the repository: for every constructor encoding and every list of public calls that the writer
 accepts, the reader — with any positive block size — run on the bytes written yields records and
@@ -148,7 +149,8 @@ theorem C01_diffNl_spec (enc : Option Name) (le : Option Text) (b : Bytes) :
        | none => false) ∧
     (Codecs.Codec.all.map fun c => (c.nl false, c.nl true)) =
       [([10], [13, 10]), ([10], [13, 10]), ([10], [13, 10]), ([10, 0], [13, 0, 10, 0]), ([10, 0], [13, 0, 10, 0]),
-       ([0, 10], [0, 13, 0, 10])] :=
+       ([0, 10], [0, 13, 0, 10]), ([10, 0, 0, 0], [13, 0, 0, 0, 10, 0, 0, 0]), ([10, 0, 0, 0], [13, 0, 0, 0, 10, 0, 0, 0]),
+       ([0, 0, 0, 10], [0, 0, 0, 13, 0, 0, 0, 10]), ([10], [13, 10]), ([10], [13, 10])] :=
   ⟨rfl, rfl, fun _ => rfl, rfl, by decide⟩
 
 /-- `secIds` spelled out -/
@@ -210,7 +212,7 @@ theorem mockJsonLaws : JsonLaws mockDumps mockLoads where
       rfl
     · cases h
 
-/-- the concrete environment: the six codecs and the mock `json` (`json.loads(bytes)` is never
+/-- the concrete environment: the codecs and the mock `json` (`json.loads(bytes)` is never
 called by the round trip: it raises) -/
 def menv : Env := Codecs.env mockDumps mockLoads (fun _ => .err)
 
@@ -288,6 +290,77 @@ example :
     (Reader.readAll menv Codecs.cfg 7 (Writer.run menv Codecs.cfg (some t!"utf-8") t!"1.0" mprog).1.out).1.map
         (·.sec) = msecs ∧
     (Reader.readAll menv Codecs.cfg 7 (Writer.run menv Codecs.cfg (some t!"utf-8") t!"1.0" mprog).1.out).2 = .done := by
+  decide
+
+/-! ## A second program, under the codecs with a signature and the single-byte code page -/
+
+/-- a UTF-32 (BOM) preamble that starts with U+FEFF, indented, CRLF detected on its first line;
+metadata under UTF-8-SIG; a windows-1252 change; a preamble with `line_endings='dos'` declared on a
+text without CR whose euro sign, curly quotes and trade mark sign are bytes `0x80–0x9F`; cp1252
+metadata; a UTF-32-BE file with its metadata; a diff whose CRLF is detected on the bytes; a second
+file, inheriting cp1252, with UTF-8-SIG metadata and a UTF-32 diff whose (eight-byte) CRLF is
+detected on the bytes and appended.  (The bytes written, 799, are those `pydiffx` writes.) -/
+def mprog2 : List Writer.Call :=
+  [.preamble (.str t!"\uFEFFhéllo 😀\r\nwörld") (some t!"utf-32") (some 2) none (some t!"text/plain"),
+   .metadata (.dict jk) (some t!"utf-8-sig") t!"json",
+   .newChange (some t!"windows-1252"),
+   .preamble (.str t!"h€llo “x”\nva™") none none (some t!"dos") none,
+   .metadata (.dict j2) none t!"json",
+   .newFile (some t!"utf-32-be"),
+   .metadata (.dict jk) none t!"json",
+   .diff (.bytes b!"-a\r\n+b") (some t!"text") none none,
+   .newFile none,
+   .metadata (.dict jk) (some t!"UTF-8-SIG") t!"json",
+   .diff (.bytes [45, 0, 0, 0, 120, 0, 0, 0, 13, 0, 0, 0, 10, 0, 0, 0, 43, 0, 0, 0, 121, 0, 0, 0]) none
+     (some t!"utf32") none]
+
+set_option maxRecDepth 65536 in
+theorem mprog2_ok : ∀ r ∈ (Writer.run menv Codecs.cfg (some t!"utf-8") t!"1.0" mprog2).2, r = .ok := by decide
+
+set_option maxRecDepth 65536 in
+theorem mprog2_size : (Writer.run menv Codecs.cfg (some t!"utf-8") t!"1.0" mprog2).1.out.length = 799 := by decide
+
+theorem mprog2_dicts : DictArgs mprog2 := by decide
+
+def mcontents2 : List Reader.Content :=
+  [.container,
+   .text t!"\uFEFFhéllo 😀\r\nwörld\r\n",
+   .metadata jk,
+   .container,
+   .text t!"h€llo “x”\nva™\r\n",
+   .metadata j2,
+   .container,
+   .metadata jk,
+   .diff b!"-a\r\n+b\r\n",
+   .container,
+   .metadata jk,
+   .diff [45, 0, 0, 0, 120, 0, 0, 0, 13, 0, 0, 0, 10, 0, 0, 0, 43, 0, 0, 0, 121, 0, 0, 0, 13, 0, 0, 0, 10, 0, 0, 0]]
+
+theorem mcontents2_eq : .container :: mprog2.map contentOfCall = mcontents2 := rfl
+theorem msecs2_eq : SecId.main :: secIds 1 mprog2 = msecs := rfl
+
+/-- **`C01_run_concrete` instantiated on the second program** (block size 7) -/
+theorem C01_run_concrete_instance2 :
+    ∃ recs, Reader.readAll menv Codecs.cfg 7
+        (Writer.run menv Codecs.cfg (some t!"utf-8") t!"1.0" mprog2).1.out = (recs, .done) ∧
+      recs.length = 12 ∧ recs.map (·.content) = mcontents2 ∧ recs.map (·.sec) = msecs := by
+  have hsz : (Writer.run menv Codecs.cfg (some t!"utf-8") t!"1.0" mprog2).1.out.length ≤ Reader.maxRead := by
+    rw [mprog2_size]
+    decide
+  have hok := mprog2_ok
+  unfold menv at hsz hok ⊢
+  obtain ⟨recs, h1, h2, h3, h4, -⟩ := C01_run_concrete mockDumps mockLoads (fun _ => .err) mockJsonLaws 7 (by decide)
+    t!"utf-8" mprog2 hok mprog2_dicts hsz
+  exact ⟨recs, h1, h2, by rw [h3, mcontents2_eq], by rw [h4, msecs2_eq]⟩
+
+set_option maxRecDepth 65536 in
+/-- … true by evaluation as well -/
+example :
+    ((Reader.readAll menv Codecs.cfg 7 (Writer.run menv Codecs.cfg (some t!"utf-8") t!"1.0" mprog2).1.out).1.map
+        (·.content) == mcontents2) = true ∧
+    (Reader.readAll menv Codecs.cfg 7 (Writer.run menv Codecs.cfg (some t!"utf-8") t!"1.0" mprog2).1.out).1.map
+        (·.sec) = msecs ∧
+    (Reader.readAll menv Codecs.cfg 7 (Writer.run menv Codecs.cfg (some t!"utf-8") t!"1.0" mprog2).1.out).2 = .done := by
   decide
 
 /-! ## Corners -/
